@@ -207,7 +207,8 @@ func run(c *vf.Ctx) {
 	c.Assume("last-contact age during a call lies between max(0, age_after - elapsed) and age_before + elapsed, ages taken from raft's own last_contact statistic; verdicts need 20 ms clearance from the bound, otherwise the call is not judged")
 	c.Assume("strict verdicts only when fsm_index, command_commit_index, fsm_update_time and leader_appended_at_time (Store.Stats) were identical before and after the call")
 	if c.ReplayFile != "" {
-		c.Logf("replay: re-running the full seed is the replay for C16 (cases are deterministic from the seed)")
+		replay(c)
+		return
 	}
 	partA(c)
 	c.Exhaustive(false)
@@ -262,6 +263,46 @@ func run(c *vf.Ctx) {
 		c.Inconclusive("live scenarios observed too little")
 		c.Require(1<<40, 1<<30)
 	}
+}
+
+// replay re-runs the case stored in a replay file: a live scenario is run
+// three more times with the seed it was found with; a grid point means the
+// whole (sub-second) grid is evaluated again.
+func replay(c *vf.Ctx) {
+	b, err := os.ReadFile(c.ReplayFile)
+	if err != nil {
+		panic(err)
+	}
+	var rf struct {
+		Seed int64  `json:"seed"`
+		Tier string `json:"tier"`
+		Case struct {
+			Scenario *int `json:"scenario"`
+		} `json:"case"`
+	}
+	if err := json.Unmarshal(b, &rf); err != nil {
+		panic(err)
+	}
+	if rf.Case.Scenario == nil {
+		partA(c)
+		c.Require(1, 1)
+		return
+	}
+	tmp := vf.TempDir("c16r")
+	defer os.RemoveAll(tmp)
+	for k := 0; k < 3; k++ {
+		args := []string{fmt.Sprint(*rf.Case.Scenario), fmt.Sprint(rf.Seed), rf.Tier, filepath.Join(tmp, fmt.Sprintf("r%d", k))}
+		out, _, _ := vf.RunWorkerOnce(false, "c16", args, nil, filepath.Join(tmp, "log"), 6*time.Minute)
+		var r scnResult
+		for _, line := range strings.Split(string(out), "\n") {
+			if strings.HasPrefix(line, "{") {
+				json.Unmarshal([]byte(line), &r)
+			}
+		}
+		c.Eval(1)
+		judgeScenario(c, r)
+	}
+	c.Require(1, 1)
 }
 
 func judgeScenario(c *vf.Ctx, r scnResult) {
